@@ -129,3 +129,15 @@ chk("C17", "static analysis: compile-reject / compile-accept witness programs wi
     "Trusted: rustc's accept/reject verdict (that is the property). The family is finite; shapes outside it (deeper nesting, "
     "macro-generated invocations) are not enumerated.",
     cat="exploration")
+chk("C18", "static analysis: translation validation of macro expansions against rustc's own literal bytes (HIR), MIR table/shape rules",
+    "Generated literal sets (every escape kind, \\x and \\u{} forms incl. underscores, line continuations incl. blank lines/CRLF/"
+    "NBSP, raw strings with 0-2 hashes, multi-byte text, empty, concat!, stringify!; plus seeded random literals) are put in "
+    "witness crates both as parser_method!'s argument and as a plain constant; after rustc expands the proc macro, the byte "
+    "list of the slice pattern it produced (HIR) must equal rustc's own unescaped bytes of the twin literal, in the prefix "
+    "form [bytes.., rem @ ..] and the suffix form [rem @ .., bytes..]; a valid literal the macro rejects is a violation. "
+    "The escape table and the line-continuation arm are read from the proc-macro crate's MIR; the strip/find/trim "
+    "expansions are checked structurally (arms in listed order, one-byte drop from the scanning end, empty match breaks the "
+    "trim loop, parser advanced by skip/skip_back of len(remainder)-len(rest), default branch leaves the parser unchanged).",
+    "rustc runs the proc macro while expanding the witness (the one place where a konst component executes, inside the "
+    "compiler); no konst runtime function is called. The literal family is finite (68 quick / 400+ thorough).",
+    cat="translation_validation")
